@@ -653,7 +653,10 @@ func Yield(site int32) {
 	if site >= 0 && int(site) < len(SiteFlags) && SiteFlags[site]&FlagSync != 0 {
 		SyncSiteHits++
 	}
-	if t.opCap > 0 && t.opSteps > t.opCap && !t.capHit {
+	if t.opCap > 0 && t.opSteps > t.opCap {
+		// Every further statement panics again until OpEnd: code on the way out may swallow a
+		// panic (fmt recovers panics raised inside a String method — Trace prints tokens with
+		// %q), and a guard that fires only once would then be gone for the rest of the operation.
 		t.capHit = true
 		panic(CapExceeded{t.opSteps})
 	}
